@@ -81,6 +81,8 @@ pub struct Reads {
     pub after_attrs: Vec<(String, String, String)>,
     pub after_lookups: Vec<(String, Option<String>, bool)>,
     pub loc: (usize, usize),
+    /// the StartTag view (`el.start_tag()`) agrees with the Element getters, before and after edits
+    pub start_tag_view_differs: Vec<String>,
 }
 
 fn valid_lookup_name(n: &str) -> bool {
@@ -148,6 +150,29 @@ fn run_real(c: &Case, cuts: &[usize]) -> Result<Vec<Reads>, String> {
                 for p in &ps {
                     r.after_lookups.push((p.clone(), el.get_attribute(p), el.has_attribute(p)));
                 }
+                // the same data through Element::start_tag()
+                {
+                    let (n, npc, attrs_e, sc_e, ns_e) = (el.tag_name(), el.tag_name_preserve_case(), read_attrs(el), el.is_self_closing(), el.namespace_uri());
+                    let st = el.start_tag();
+                    if st.name() != n {
+                        r.start_tag_view_differs.push(format!("name {:?} vs {n:?}", st.name()));
+                    }
+                    if st.name_preserve_case() != npc {
+                        r.start_tag_view_differs.push("name_preserve_case".into());
+                    }
+                    let attrs_s: Vec<(String, String, String)> = st.attributes().iter().map(|a| (a.name(), a.name_preserve_case(), a.value())).collect();
+                    if attrs_s != attrs_e {
+                        r.start_tag_view_differs.push(format!("attributes {attrs_s:?} vs {attrs_e:?}"));
+                    }
+                    if st.self_closing() != sc_e || st.namespace_uri() != ns_e {
+                        r.start_tag_view_differs.push("self_closing/namespace".into());
+                    }
+                    for p in &ps {
+                        if st.get_attribute(p) != lookup_real(&attrs_e, p).0 || st.has_attribute(p) != lookup_real(&attrs_e, p).1 {
+                            r.start_tag_view_differs.push(format!("lookup {p:?}"));
+                        }
+                    }
+                }
                 lg.borrow_mut().push(r);
                 Ok(())
             }));
@@ -161,6 +186,13 @@ fn run_real(c: &Case, cuts: &[usize]) -> Result<Vec<Reads>, String> {
         Err(p) => Err(format!("panic: {p}")),
         Ok(Err(e)) => Err(format!("error: {e}")),
         Ok(Ok(())) => Ok(log.take()),
+    }
+}
+
+fn lookup_real(attrs: &[(String, String, String)], p: &str) -> (Option<String>, bool) {
+    match attrs.iter().find(|a| a.1.eq_ignore_ascii_case(p)) {
+        Some(a) => (Some(a.2.clone()), true),
+        None => (None, false),
     }
 }
 
